@@ -113,6 +113,7 @@ type Sim struct {
 	MaxSteps int
 	Panics   []string
 	Nondet   []string
+	seqToken int32  // address for the race annotations of Go
 	Livelock string // set when a task was stopped SpinOuts times in a row for passing 20000 yield points without blocking
 	SpinOuts int    // default 400 (8 million yield points); harnesses with long legitimate computations raise it
 	sig      uint64
@@ -481,10 +482,19 @@ func (s *Sim) Advance(d time.Duration) {
 	}
 }
 
-// Go starts a harness task.
+// Go starts a harness task. A harness script is sequential: it starts a task,
+// waits for it (run to quiescence) and then starts others that use what the
+// first one built, which in the real program is plain program order. The
+// scheduler's hand-offs are hidden from the race detector, so that order is
+// given back explicitly: the end of every harness task happens-before the
+// start of every harness task spawned later.
 func (s *Sim) Go(name string, f func()) int {
 	s.mustCtl()
-	t := s.spawn(KHarness, name, f)
+	t := s.spawn(KHarness, name, func() {
+		raceAcquire(&s.seqToken)
+		defer raceReleaseMerge(&s.seqToken)
+		f()
+	})
 	return t.id
 }
 
